@@ -102,8 +102,11 @@ class WMTSServer(Server):
 
         # set the content_type to tile.format and not to request.format ( to support mixed_mode)
         resp = Response(tile.as_buffer(), content_type='image/' + tile.format)
-        resp.cache_headers(tile.timestamp, etag_data=(tile.timestamp, tile.size),
-                           max_age=self.max_tile_age)
+        if tile.cacheable:
+            resp.cache_headers(tile.timestamp, etag_data=(tile.timestamp, tile.size),
+                               max_age=self.max_tile_age)
+        else:
+            resp.cache_headers(no_cache=True)
         resp.make_conditional(request.http)
         return resp
 
